@@ -301,6 +301,7 @@ type world struct {
 	desc   []string
 	racy   map[int64]bool // label sets that were evicted (full-range tombstone in the log)
 	viol    []string
+	shape   string
 	metaDup bool
 
 	// statistics
@@ -626,6 +627,7 @@ func runCase(outDir string, seed uint64, idx int, corpus int) (string, map[strin
 
 	now := int64(1000 + r.Intn(500))
 	g := int64(math.MinInt64) // highest truncation time so far
+	floor := int64(math.MinInt64) // minValidTime of the last Init
 	nops := 14 + r.Intn(30)
 	if corpus >= 0 {
 		nops = 0
@@ -704,6 +706,9 @@ func runCase(outDir string, seed uint64, idx int, corpus int) (string, map[strin
 			default:
 				mint = now - int64(r.Intn(1200))
 			}
+			if mint < floor { // never truncate below the minValidTime the head was initialised with
+				mint = floor
+			}
 			w.truncate(mint)
 			if mint > g {
 				g = mint
@@ -751,6 +756,7 @@ func runCase(outDir string, seed uint64, idx int, corpus int) (string, map[strin
 			if g != math.MinInt64 && r.Chance(1, 2) {
 				mv = g
 			}
+			floor = mv
 			w.restart(mv)
 		}
 	}
@@ -870,6 +876,52 @@ func runAgentCase(outDir string, seed uint64, idx int) (string, map[string]any, 
 			if countSeries(post.Cp) < countSeriesUpTo(pre, post.CpIdx) {
 				w.dropped++
 			}
+			// Finding probe: samples / exemplars left without series record.  When every such ref is a
+			// DUPLICATE ref (its label set has an older ref), this is the finding
+			// agent-duplicate-ref-orphan: the agent keeps the series record of a duplicate ref until the last
+			// SEGMENT that mentions it is checkpointed, but Checkpoint carries its samples at or after mint
+			// over into the checkpoint.
+			refLab, seenRef := map[int64]int64{}, map[int64]bool{}
+			for L, refs := range w.labRefs {
+				for r := range refs {
+					refLab[int64(r)] = L
+				}
+			}
+			var orphans []int64
+			allDup := true
+			scan := func(rs []rec) {
+				for _, rc := range rs {
+					switch rc.Kind {
+					case 0:
+						for _, p := range rc.Pairs {
+							seenRef[p[0]] = true
+						}
+					case 1, 2:
+						for _, t := range rc.Triples {
+							if !seenRef[t[0]] {
+								orphans = append(orphans, t[0])
+								dup := false
+								for r := range w.labRefs[refLab[t[0]]] {
+									if int64(r) < t[0] {
+										dup = true
+									}
+								}
+								if !dup {
+									allDup = false
+								}
+							}
+						}
+					}
+				}
+			}
+			scan(post.Cp)
+			for sg := post.First; sg <= post.Last && post.First >= 0; sg++ {
+				scan(post.Segs[sg])
+			}
+			if len(orphans) > 0 && allDup && w.shape == "" {
+				w.shape = "agent-duplicate-ref-orphan"
+				w.desc = append(w.desc, fmt.Sprintf("FINDING agent-duplicate-ref-orphan: checkpoint.%08d + segments hold samples/exemplars of duplicate refs %v without series record", post.CpIdx, orphans))
+			}
 		}
 		w.desc = append(w.desc, fmt.Sprintf("agent-truncate(%d) gone=%v cp=%d", ts, gone, post.CpIdx))
 	}
@@ -917,7 +969,11 @@ func runAgentCase(outDir string, seed uint64, idx int) (string, map[string]any, 
 		}
 	}
 	term := fmt.Sprintf("mkCase %s\n [] [] %s\n %s", zz(int64(idx)), gallina.List(w.events), gallina.List(w.obs))
-	desc := map[string]any{"shape": "agent-history", "seed": seed, "index": idx, "ops": w.desc}
+	shape := "agent-history"
+	if w.shape != "" {
+		shape = w.shape
+	}
+	desc := map[string]any{"shape": shape, "seed": seed, "index": idx, "ops": w.desc}
 	return term, desc, w
 }
 
@@ -1009,7 +1065,16 @@ func main() {
 		PerShard: 25,
 	}
 	nontrivial := 0
+	only := map[int]bool{}
+	for _, x := range strings.Split(os.Getenv("C15_ONLY"), ",") {
+		if v, err := strconv.Atoi(x); err == nil {
+			only[v] = true
+		}
+	}
 	for i := 0; i < n; i++ {
+		if len(only) > 0 && !only[i] {
+			continue
+		}
 		var term string
 		var desc map[string]any
 		var w *world
@@ -1041,6 +1106,9 @@ func main() {
 		}
 		if w.effective > 1 {
 			meta.Hit("repeated-checkpoints")
+		}
+		if w.shape != "" {
+			meta.Hit("finding:" + w.shape)
 		}
 		for _, v := range w.viol {
 			meta.Hit("finding:cp-metadata-order-duplicate-refs")
